@@ -261,8 +261,8 @@ def ast_readings():
     """{(op, kind, cat): astMode}"""
     out = {}
     delegates = fast_delegates()
-    for kind in COLL_FILES:
-        modes = coll_serialize_modes(kind)
+    for kind in list(COLL_FILES) + ["immSet"]:
+        modes = coll_serialize_modes("set" if kind == "immSet" else kind)
         for cat, m in modes.items():
             sites = [(POS_KIND[kind], "none")] if cat == "pos" and kind in POS_KIND else \
                 [] if cat == "pos" else [(kind, cat)]
@@ -290,7 +290,8 @@ def _descendant_shared(paths, p):
 
 def probe_row(op, kind, cat, impl, node_path):
     """row facts from the real run of a witness case"""
-    row = {"argMutated": not impl.get("args_same", True), "returns": "fresh", "retainsArg": False, "shallow": False}
+    row = {"argMutated": not impl.get("args_same", True), "returns": "fresh", "retainsArg": False, "shallow": False,
+           "deep": False}
     if not impl.get("ok"):
         row["returns"] = "raises"
         return row
@@ -317,9 +318,9 @@ def mode_of_row(op, kind, row):
     is_input = op in ("construct", "setattr", "deserialize", "derive")
     leaf = kind in ("any", "document", "mapping", "names", "required", "enumValues", "default", "schema")
     if is_input:
-        return "alias" if row["retainsArg"] else "shallow" if row["shallow"] else "deep" if leaf else "rebuild"
+        return "alias" if row["retainsArg"] else "shallow" if row["shallow"] else "deep" if leaf or row.get("deep") else "rebuild"
     if row["returns"] in ("fresh", "scalar"):
-        return "shallow" if row["shallow"] else "deep" if leaf else "rebuild"
+        return "shallow" if row["shallow"] else "deep" if leaf or row.get("deep") else "rebuild"
     return "alias"
 
 
@@ -365,13 +366,22 @@ def probe_all():
                 continue
             node = [] if op in ("setattr", "fieldSerialize") else ["f"]
             r = probe_row(op, kind, cat, impl, node)
+            paths = [list(q) for q in impl.get("shared_paths", [])] if impl.get("ok") else []
+            any_shared = any(q[:len(node)] == node for q in paths)
             if kind in S.WRAP_KINDS and cat in inner_site:
                 # a wrapper consumes no path step: aliasing caused by the option itself belongs to the option's row
                 inner = done.get(inner_site[cat])
                 if inner is not None and (inner["retainsArg"] or inner["returns"] in ("aliasInternal", "aliasArg")):
-                    r["retainsArg"] = False
-                    if r["returns"] in ("aliasInternal", "aliasArg"):
-                        r["returns"] = "fresh"
+                    if r["retainsArg"] or r["returns"] in ("aliasInternal", "aliasArg"):
+                        r["retainsArg"] = False
+                        if r["returns"] in ("aliasInternal", "aliasArg"):
+                            r["returns"] = "fresh"
+                if inner is not None and inner.get("_any_shared") and not any_shared and r["returns"] == "fresh" \
+                        and not r["retainsArg"]:
+                    # the option on its own shares something, behind this wrapper nothing is shared: the wrapper
+                    # copies generically instead of delegating to the option
+                    r["deep"] = True
+            r["_any_shared"] = any_shared
             done[(kind, cat)] = r
             rows.append((op, kind, cat, r))
     # class- and document-level operations
@@ -407,7 +417,7 @@ def probe_all():
             derive.setdefault("root", r0)["argMutated"] |= r0["argMutated"]
     for site, r in derive.items():
         rows.append(("derive", site, "none" if site == "root" else "any", r))
-    rows.append(("derive", "any", "none", {"argMutated": False, "returns": "fresh", "retainsArg": False, "shallow": False}))
+    rows.append(("derive", "any", "none", {"argMutated": False, "returns": "fresh", "retainsArg": False, "shallow": False, "deep": False}))
     conv = {}
     for doc in S.CONVERT_DOCS:
         for ms in ([S.CONVERT_MAPPINGS[0]], [S.CONVERT_MAPPINGS[1], S.CONVERT_MAPPINGS[2]], [S.CONVERT_MAPPINGS[3]], []):
@@ -428,7 +438,7 @@ def probe_all():
                 conv.setdefault("root", probe_row("convert", "root", "none", impl, []))
     for site, r in conv.items():
         rows.append(("convert", site, "none" if site == "root" else "any", r))
-    rows.append(("convert", "any", "none", {"argMutated": False, "returns": "fresh", "retainsArg": False, "shallow": False}))
+    rows.append(("convert", "any", "none", {"argMutated": False, "returns": "fresh", "retainsArg": False, "shallow": False, "deep": False}))
     return rows
 
 
@@ -446,7 +456,7 @@ def render(rows, readings, namespace="Typedpy.Generated"):
         am = readings.get((op, kind, cat), "")
         items.append(
             f"  {{ op := {OP_LEAN[op]}, kind := .{kind}, cat := .{cat}, argMutated := {lean_bool(r['argMutated'])}, "
-            f"returns := .{r['returns']}, retainsArg := {lean_bool(r['retainsArg'])}, shallow := {lean_bool(r['shallow'])}, "
+            f"returns := .{r['returns']}, retainsArg := {lean_bool(r['retainsArg'])}, shallow := {lean_bool(r['shallow'])}, deep := {lean_bool(r.get('deep', False))}, "
             f"astMode := {lean_str(am)}, agree := {lean_bool(agree(am, op, kind, r))} }}")
     lines.append(",\n".join(items))
     lines += ["]", "", f"end {namespace}", ""]
